@@ -33,7 +33,11 @@ def pool(rng, n):
     for f in out[:60] + out[-11:]:
         fill_caches(f)
         for mk in (lambda f: f.copy_with_new_atts(bold=True), lambda f: fmtstr(f, "blue"), lambda f: f.new_with_atts_removed("fg"),
-                   lambda f: f + "x", lambda f: f[0:1], lambda f: f.copy(), lambda f: fmtstr(f, underline=False)):
+                   lambda f: f + "x", lambda f: f[0:1], lambda f: f.copy(), lambda f: fmtstr(f, underline=False),
+                   # every public operation that builds a value FROM a rendered one (a result must not inherit what its operand displayed)
+                   lambda f: f.append("c"), lambda f: f.append(FmtStr(Chunk("", {"fg": 31}), Chunk("y", {"fg": 34}))), lambda f: f.append(FmtStr(Chunk("", {"bg": 41}))),
+                   lambda f: f.splice("q", 0), lambda f: f.splice("", 0, 1), lambda f: f.join([f, "z"]), lambda f: f * 2, lambda f: "x" + f,
+                   lambda f: f.ljust(len(f) + 1), lambda f: f.copy_with_new_str("nn"), lambda f: f.setslice_with_length(0, 1, "k", len(f) + 1)):
             try:
                 derived.append(mk(f))
             except Exception:
